@@ -12,7 +12,7 @@ use serde::{Deserialize, Serialize};
 use serde_json::Value;
 use std::time::Duration;
 use tower::{Layer, Service, ServiceExt};
-use tower_resilience_hedge::{HedgeError, HedgeLayer};
+use tower_resilience_hedge::{HedgeError, HedgeEvent, HedgeLayer};
 
 #[derive(Clone, Debug, Serialize, Deserialize, PartialEq)]
 pub enum Delay {
@@ -50,6 +50,10 @@ pub struct Scn {
     /// the service is built while another (never driven) runtime's context is entered
     #[serde(default)]
     pub built_elsewhere: bool,
+    /// (event kind: 0 HedgeStarted / 1 PrimaryStarted, n, ms): the listener blocks the thread for
+    /// `ms` at the n-th event of that kind (virtual time passes inside the poll)
+    #[serde(default)]
+    pub block: Option<(u8, u8, u64)>,
 }
 
 /// Many attempts whose outcomes arrive together (more than any small internal queue holds).
@@ -78,6 +82,7 @@ fn gen_many(rng: &mut Rng) -> Scn {
         knobs: SchedKnobs::gen(rng, false, 60),
         order: rng.below(4) as u8,
         built_elsewhere: false,
+        block: None,
     }
 }
 
@@ -98,7 +103,7 @@ fn gen_unbounded(rng: &mut Rng) -> Scn {
             Call { start_ms: *rng.pick(&[0u64, 5]), attempts }
         })
         .collect();
-    Scn { max: u32::MAX, delay, calls, clone_warmup_ms: 0, knobs: SchedKnobs::gen(rng, false, 60), order: rng.below(4) as u8, built_elsewhere: false }
+    Scn { max: u32::MAX, delay, calls, clone_warmup_ms: 0, knobs: SchedKnobs::gen(rng, false, 60), order: rng.below(4) as u8, built_elsewhere: false, block: None }
 }
 
 fn gen_phased(rng: &mut Rng) -> Scn {
@@ -108,7 +113,7 @@ fn gen_phased(rng: &mut Rng) -> Scn {
     let (before, after) = if rng.chance(1, 2) { (before, after) } else { (after, before) };
     let slow = |rng: &mut Rng| Behaviour { lat_ms: *rng.pick(&[200u64, 200, 30]), out: if rng.chance(2, 3) { Outcome::Ok } else { Outcome::Err(0) }, yields: 0 };
     let calls = vec![Call { start_ms: 0, attempts: (0..max).map(|_| slow(rng)).collect() }, Call { start_ms: 500, attempts: (0..max).map(|_| slow(rng)).collect() }];
-    Scn { max, delay: Delay::Phased { before, after, switch_ms: 400 }, calls, clone_warmup_ms: 0, knobs: SchedKnobs::gen(rng, false, 60), order: rng.below(2) as u8, built_elsewhere: false }
+    Scn { max, delay: Delay::Phased { before, after, switch_ms: 400 }, calls, clone_warmup_ms: 0, knobs: SchedKnobs::gen(rng, false, 60), order: rng.below(2) as u8, built_elsewhere: false, block: None }
 }
 
 pub fn gen(rng: &mut Rng) -> Scn {
@@ -163,6 +168,7 @@ pub fn gen(rng: &mut Rng) -> Scn {
         knobs: SchedKnobs::gen(rng, true, 60),
         order: if rng.chance(1, 2) { rng.below(4) as u8 } else { 0 },
         built_elsewhere: rng.chance(1, 8),
+        block: if rng.chance(1, 6) { Some((*rng.pick(&[0u8, 0, 0, 1]), rng.range(1, 3) as u8, *rng.pick(&[3u64, 10, 20, 45, 150]))) } else { None },
     }
 }
 
@@ -196,9 +202,30 @@ pub fn valid(s: &Scn) -> bool {
             Delay::Phased { before, after, switch_ms } => before.len() == 4 && after.len() == 4 && before.iter().chain(after.iter()).all(|d| *d >= 1 && *d <= 200) && *switch_ms <= 1000 && s.knobs.jumps.is_empty() && s.clone_warmup_ms == 0,
         }
         && s.clone_warmup_ms <= 500
+        && s.block.map(|b| b.0 <= 1 && b.1 >= 1 && b.1 <= 8 && b.2 >= 1 && b.2 <= 500 && !unbounded && !matches!(s.delay, Delay::Phased { .. })).unwrap_or(true)
         && s.order <= 3
         && s.knobs.jumps.len() <= 3
         && s.knobs.jumps.iter().all(|j| j.0 <= 300 && j.1 <= 200)
+}
+
+/// Longest time that can have passed between the spawn of an attempt and its first poll at
+/// `first_run_us`: the chain of clock movements (not made by task `own`) that ends exactly there.
+fn spawn_slack(log: &[world::Rec], own: i32, first_run_us: u64) -> u64 {
+    let mut cur = first_run_us;
+    loop {
+        let prev = log.iter().rev().find_map(|r| match r.ev {
+            world::Ev::Jump { ms } if ms > 0 && r.t_us + ms * 1000 == cur && r.task != own => Some(r.t_us),
+            _ => None,
+        });
+        match prev {
+            Some(t) => cur = t,
+            None => return first_run_us - cur,
+        }
+    }
+}
+
+thread_local! {
+    static BLOCK_SEEN: std::cell::Cell<u8> = const { std::cell::Cell::new(0) };
 }
 
 /// configured delay before attempt `attempt`, in microseconds
@@ -262,6 +289,26 @@ pub fn run(s: &Scn, ctx: &mut RunCtx) -> RunOutput {
         if scn.order & 1 != 0 {
             b = b.max_hedged_attempts(count(scn.max));
         }
+        if let Some((kind, nth, ms)) = scn.block {
+            // (listeners must be Send + Sync: the counter lives in a thread-local of the run)
+            BLOCK_SEEN.with(|c| c.set(0));
+            b = b.on_event(tower_resilience_core::FnListener::new(move |e: &HedgeEvent| {
+                let hit = match e {
+                    HedgeEvent::HedgeStarted { .. } => kind == 0,
+                    HedgeEvent::PrimaryStarted { .. } => kind == 1,
+                    _ => false,
+                };
+                if hit {
+                    let n = BLOCK_SEEN.with(|c| {
+                        c.set(c.get().saturating_add(1));
+                        c.get()
+                    });
+                    if n == nth {
+                        world::block_for(ms);
+                    }
+                }
+            }));
+        }
         let layer = b.build();
         let base = if scn.built_elsewhere { built_in_foreign_runtime(|| layer.layer(SimInner::new(0))) } else { layer.layer(SimInner::new(0)) };
         let mut defs = vec![];
@@ -292,7 +339,8 @@ pub fn run(s: &Scn, ctx: &mut RunCtx) -> RunOutput {
     drop_foreign_runtime();
     let log = world::with(|w| std::mem::take(&mut w.log));
     let calls = inner_calls(&log);
-    let jump = s.knobs.total_jump() * 1000;
+    // time that passed inside a blocking listener counts like a clock jump for the upper bounds
+    let jump = (s.knobs.total_jump() + world::with(|w| w.blocked_ms)) * 1000;
     let parallel = matches!(s.delay, Delay::Immediate | Delay::Fixed(0));
     let mut nontrivial = false;
     for (i, t) in rep.tasks.iter().enumerate() {
@@ -336,7 +384,13 @@ pub fn run(s: &Scn, ctx: &mut RunCtx) -> RunOutput {
                     }
                     other => delay_for(other, j),
                 };
-                if mine[j].start_us < mine[j - 1].start_us.saturating_add(d) {
+                // "started" is the instant the library spawned the attempt; the inner call is
+                // logged when the spawned task first runs. The two differ only if the clock was
+                // moved in between (a clock jump, or another call's listener blocking the thread:
+                // the runtime is never idle while a spawned task is queued). Time that this
+                // call's own listener blocked does not count: it runs before the spawn.
+                let slack = spawn_slack(&log, i as i32, mine[j - 1].start_us);
+                if mine[j].start_us.saturating_add(slack) < mine[j - 1].start_us.saturating_add(d) {
                     world::violation("C12.spacing", "too_early", format!("call {}: attempt {} started at {}us, previous at {}us, configured delay {}us", i, j, mine[j].start_us, mine[j - 1].start_us, d));
                 }
             }
